@@ -68,4 +68,53 @@ theorem neg_value {x : Qty} (hq : s.reg.unitQuantum x.unit = none) :
     s.qtyNeg d x = .ok ⟨-x.amount, x.unit⟩ := by
   unfold QState.qtyNeg; exact mkQty_no_quantum rfl hq
 
+/-! ### types without reference unit -/
+
+/-- two different units of one type WITHOUT reference unit (not money), no
+converter registered for the type: whatever factors their definitions carry
+(EUR/kg, EUR/g; multiples of definition-less units), nothing converts -/
+theorem equivAmount_reference_less {q : Qty} {v : Nat}
+    (hc : s.reg.unitCls q.unit = s.reg.unitCls v) (hne : q.unit ≠ v)
+    (href : (s.reg.cls (s.reg.unitCls q.unit)).refUnit = none)
+    (hmoney : (s.reg.cls (s.reg.unitCls q.unit)).isMoney = false)
+    (hconv : s.clsConverters (s.reg.unitCls q.unit) = []) :
+    s.equivAmount q v = .ok none := by
+  unfold QState.equivAmount RegState.unitEq RegState.unitFactor
+  have h1 : (s.reg.unitCls q.unit != s.reg.unitCls v) = false := by simp [hc]
+  have h2 : (q.unit == v) = false := by simpa using hne
+  simp only [h1, href, Option.isNone_none, Bool.false_eq_true, ↓reduceIte, h2, hmoney, hconv,
+    List.reverse_nil]
+  rfl
+
+/-- ... so their sum, difference and order raise UnitConversionError and they
+are unequal -/
+theorem add_reference_less_rejected (sign : ℚ) {x y : Qty}
+    (hc : s.reg.unitCls x.unit = s.reg.unitCls y.unit) (hne : x.unit ≠ y.unit)
+    (href : (s.reg.cls (s.reg.unitCls x.unit)).refUnit = none)
+    (hmoney : (s.reg.cls (s.reg.unitCls x.unit)).isMoney = false)
+    (hconv : s.clsConverters (s.reg.unitCls x.unit) = []) :
+    s.qtyAddSub d sign x y = .error .UnitConversionError := by
+  unfold QState.qtyAddSub
+  have h1 : (s.reg.unitCls x.unit != s.reg.unitCls y.unit) = false := by simp [hc]
+  have hue : s.reg.unitEq x.unit y.unit = some false := by
+    unfold RegState.unitEq
+    have h2 : (x.unit == y.unit) = false := by simpa using hne
+    simp [h1, href, h2]
+  have he := equivAmount_reference_less (s := s) (q := y) (v := x.unit) hc.symm (Ne.symm hne)
+    (by rw [← hc]; exact href) (by rw [← hc]; exact hmoney) (by rw [← hc]; exact hconv)
+  simp only [h1, Bool.false_eq_true, ↓reduceIte, hue, he]
+
+theorem eq_reference_less_false {x y : Qty}
+    (hc : s.reg.unitCls x.unit = s.reg.unitCls y.unit) (hne : x.unit ≠ y.unit)
+    (href : (s.reg.cls (s.reg.unitCls x.unit)).refUnit = none)
+    (hmoney : (s.reg.cls (s.reg.unitCls x.unit)).isMoney = false)
+    (hconv : s.clsConverters (s.reg.unitCls x.unit) = []) :
+    s.qtyEq x y = .ok false := by
+  unfold QState.qtyEq
+  have h1 : (s.reg.unitCls x.unit != s.reg.unitCls y.unit) = false := by simp [hc]
+  have h2 : (x.unit == y.unit) = false := by simpa using hne
+  have he := equivAmount_reference_less (s := s) (q := y) (v := x.unit) hc.symm (Ne.symm hne)
+    (by rw [← hc]; exact href) (by rw [← hc]; exact hmoney) (by rw [← hc]; exact hconv)
+  simp only [h1, Bool.false_eq_true, ↓reduceIte, h2, he]
+
 end QM.Props.C03
